@@ -297,6 +297,38 @@ def read_only_calls_scenario(h: Harness, rng):
         h.count(f"read-only-calls:{label.split('(')[0]}")
 
 
+def postponed_annotations_scenario(h: Harness, rng):
+    """a grammar module written with `from __future__ import annotations`: every reading of a class's annotations builds new refinement
+    objects, and types that mention them (a Union with a refined alternative) are new, unequal objects each time -- still the same
+    symbols: a genotype maps to the same program every time, and a dynamic-SGE genotype that was mapped once needs no further genes"""
+    import futgrammar
+    g = futgrammar.grammar()
+    shared = NativeRandomSource(rng.randrange(10**6))
+    for name, mk in (("DynamicSGE", lambda: DSGE(g, 5)), ("GE", lambda: GE(g, synth.make_decider("grow", 5, shared, g), gene_length=48)),
+                     ("SGE", lambda: SGE(g, synth.make_decider("grow", 5, shared, g), gene_length=16))):
+        rep = mk()
+        for i in range(h.n(20, 80)):
+            st, ge = safe(lambda: rep.create_genotype(shared))
+            if st != "ok":
+                continue
+            st1, p1 = safe(lambda: rep.genotype_to_phenotype(ge))
+            keys1 = len(ge.dna) if isinstance(ge.dna, dict) else None
+            genes1 = sum(len(v) for v in ge.dna.values()) if isinstance(ge.dna, dict) else None
+            st2, p2 = safe(lambda: rep.genotype_to_phenotype(ge))
+            a, c = (repr(p1) if st1 == "ok" else f"error:{p1}"), (repr(p2) if st2 == "ok" else f"error:{p2}")
+            h.seen(f"postponed:{name}:{i}:{a[:30]}", nontrivial=st1 == "ok" and "Un(" in a)
+            h.count(f"postponed-annotations:{name}")
+            if a != c:
+                h.fail(f"{name}.genotype_to_phenotype", "same-genotype-different-program",
+                       f"grammar declared under postponed annotations: genotype #{i} maps to {a[:100]} and, mapped again, to {c[:100]}", [name, i])
+                break
+            if name == "DynamicSGE" and st1 == "ok" and (len(ge.dna), sum(len(v) for v in ge.dna.values())) != (keys1, genes1):
+                h.fail("DynamicSGE.genotype_to_phenotype", "remapping-draws-new-genes",
+                       f"grammar declared under postponed annotations: the second mapping of dynamic-SGE genotype #{i} grew it from {keys1} gene lists / "
+                       f"{genes1} genes to {len(ge.dna)} / {sum(len(v) for v in ge.dna.values())}", [name, i])
+                break
+
+
 def grammar_events_scenario(h: Harness, rng):
     """the program of a genotype is determined by the genotype and the grammar as it IS: (1) after `Grammar.update_weights` changed
     the production weights, a representation built BEFORE the update maps a genotype to the same program as one built after it;
@@ -362,6 +394,7 @@ def run(h: Harness):
     short_lived_genotypes_scenario(h, rng)
     dsge_family_scenario(h, rng)
     read_only_calls_scenario(h, rng)
+    postponed_annotations_scenario(h, rng)
     grammar_events_scenario(h, rng)
     C = gram.ClassSpec
     # fixed grammars with PLAIN float / str fields (drawn through the derived primitives of the gene-backed sources)
